@@ -3,6 +3,7 @@ package main
 import (
 	"context"
 	"fmt"
+	"strings"
 	"sync"
 	"time"
 
@@ -93,6 +94,7 @@ type c05World struct {
 	bound    *x509.PublicKey
 	failed   bool
 	shape    string
+	prop     string // property the violations are reported under ("" = C05)
 }
 
 func (w *c05World) logf(f string, a ...any) { w.log = append(w.log, fmt.Sprintf(f, a...)) }
@@ -105,6 +107,9 @@ func (w *c05World) fail(sig, desc string, extra map[string]any) {
 	d := map[string]any{"predicate": w.pred.name, "scenario": w.shape, "steps": w.log}
 	for k, v := range extra {
 		d[k] = v
+	}
+	if w.prop != "" && strings.HasPrefix(sig, "C05/") {
+		sig = w.prop + sig[3:]
 	}
 	w.r.Violate(sig, w.caseID, desc, d)
 }
@@ -472,13 +477,17 @@ func idxSample(id string) bool { return len(id) > 0 && hashStr(id)[0] == '0' && 
 
 // c05Bound: V is established with P (accepted key K); then a different key tries.
 func c05Bound(r *ev.Run, g *rng.R, caseID string, pd predSpec, attack, fk string, okKey, foreign testKey) {
+	c05BoundAs(r, g, caseID, pd, attack, fk, okKey, foreign, "")
+}
+
+func c05BoundAs(r *ev.Run, g *rng.R, caseID string, pd predSpec, attack, fk string, okKey, foreign testKey, prop string) {
 	tm := slowTimings()
 	if attack != "foreign-initiates" {
 		tm.RekeyAfterTime = 120 * time.Millisecond
 		tm.RejectAfterTime = 5 * time.Second
 		tm.KeepAliveTimeout = 5 * time.Second
 	}
-	w := &c05World{r: r, caseID: caseID, pred: pd, sessKeys: map[uint64]x509.PublicKey{}, shape: "bound/" + attack + "/" + fk}
+	w := &c05World{r: r, caseID: caseID, pred: pd, sessKeys: map[uint64]x509.PublicKey{}, shape: "bound/" + attack + "/" + fk, prop: prop}
 	w.V = newCapEnd("V", keyN(30), pd.fn, tm)
 	ptm := slowTimings()
 	w.P = newCapEnd("P", okKey, func(*x509.PublicKey) bool { return true }, ptm)
